@@ -345,6 +345,22 @@ func (ft *fnTrans) applyContract(x ssa.Value, fc *FuncContract, callee *ssa.Func
 			results = append(results, n)
 		}
 	}
+	// objects the callee allocated (refs in [topPre, top)) are well-formed too: closedness of the fresh region
+	// for every component reachable from the result types
+	{
+		reach := map[string]bool{}
+		for i := 0; i < sig.Results().Len(); i++ {
+			ft.compsReachable(sig.Results().At(i).Type(), 3, reach)
+		}
+		for _, c := range sortedKeys(reach) {
+			if done[c] {
+				continue
+			}
+			if ax := vc.closedAxiomRegion(c, vc.get(*h, c), topPre, vc.get(*h, compTop), func(d string) string { return vc.get(*h, d) }); ax != "" {
+				vc.emit(ax)
+			}
+		}
+	}
 	post := &Env{vc: vc, pkg: pkg, vars: pre.vars, heap: *h, old: pre, top0: topPre}
 	for i, r := range results {
 		post.results = append(post.results, TV{r, sig.Results().At(i).Type()})
@@ -375,6 +391,9 @@ func (ft *fnTrans) applyContract(x ssa.Value, fc *FuncContract, callee *ssa.Func
 	for _, e := range fc.Ensures {
 		t, err := post.Bool(e.Expr)
 		if err != nil {
+			if e.Optional {
+				continue // not applicable to this instantiation: assuming less is sound
+			}
 			panic(specErr{fmt.Sprintf("ensures of %s %q: %v", key, e.Src, err)})
 		}
 		vc.assume(implies(reach, t))
@@ -861,4 +880,31 @@ func (ft *fnTrans) boxedArgs(c *ssa.CallCommon, names []string) map[string]types
 		}
 	}
 	return out
+}
+
+
+// compsReachable: heap components that objects reachable from a value of type t live in (bounded depth)
+func (ft *fnTrans) compsReachable(t types.Type, depth int, out map[string]bool) {
+	if depth < 0 {
+		return
+	}
+	vc := ft.vc
+	t = types.Unalias(t)
+	switch u := t.Underlying().(type) {
+	case *types.Pointer:
+		for _, c := range ft.objectComps(u.Elem()) {
+			out[c] = true
+		}
+		ft.compsReachable(u.Elem(), depth-1, out)
+	case *types.Slice:
+		out[vc.compElems(u.Elem())] = true
+		ft.compsReachable(u.Elem(), depth-1, out)
+	case *types.Map:
+		out[vc.compMapVal(u)] = true
+		ft.compsReachable(u.Elem(), depth-1, out)
+	case *types.Struct:
+		for i := 0; i < u.NumFields(); i++ {
+			ft.compsReachable(u.Field(i).Type(), depth-1, out)
+		}
+	}
 }
